@@ -156,6 +156,67 @@ fn qmr_restart_cases(ctx: &Ctx) {
     ctx.listed_cases("listed inputs: reducible dyadic systems on which QMR restarts after exhausting the Krylov space (sub-agent, round 5)", cases);
 }
 
+/// a guess that solves the system to rounding (the direct solution of a generic-real SPD system, so b - A x0 is rounding noise, not an
+/// exact zero) at right-hand-side scales 1, 2^600 and 2^-600: accepted at once (the noise is 1e-16 of ||b|| at every scale), x untouched
+fn near_exact_guess_space(ctx: &Ctx) {
+    let letters = [0.0, 0.7, -0.3, 0.55];
+    let l = letters.len() as u64;
+    let scales = [1.0, 2f64.powi(600), 2f64.powi(-600)];
+    ctx.lattice(
+        "generic-real SPD 3x3 (symmetric off-diagonals over {0,0.7,-0.3,0.55}, diagonal = row sum + 0.37), guess = direct solution, right-hand side scaled by {1,2^600,2^-600}: all five solvers accept it",
+        pow(l, 3) * scales.len() as u64,
+        |idx| format!("offdiag#{} scale#{}", idx / 3, idx % 3),
+        |idx, acc| {
+            let mut dg = vec![0usize; 3];
+            digits_uniform(idx / 3, l, &mut dg);
+            let sc = scales[(idx % 3) as usize];
+            let n = 3;
+            let mut d = vec![vec![0.0f64; n]; n];
+            let mut k = 0;
+            for i in 0..n {
+                for j in i + 1..n {
+                    d[i][j] = letters[dg[k]];
+                    d[j][i] = letters[dg[k]];
+                    k += 1;
+                }
+            }
+            for i in 0..n {
+                let s: f64 = (0..n).filter(|&j| j != i).map(|j| d[i][j].abs()).sum();
+                d[i][i] = s + 0.37;
+            }
+            let b0 = vec![0.9184622128670501, 0.006907651164131723, 0.5234778673726308];
+            let x0 = match lu_solve(&d, &[b0.clone()]) {
+                Some(v) => v[0].clone(),
+                None => return,
+            };
+            acc.nontriv("near-exact guess");
+            let b: Vec<f64> = b0.iter().map(|v| v * sc).collect();
+            let g: Vec<f64> = x0.iter().map(|v| v * sc).collect();
+            let a = sparse_of(&d, (idx % 7) as usize);
+            for &s in SOLVERS.iter() {
+                let key = || format!("near-exact guess {:?} A={:?} scale={:e}", s, d, sc);
+                let res = catch(|| -> Result<(), String> {
+                    let mut x = Vector::create(g.clone());
+                    match run(s, &a, &Vector::create(b.clone()), &mut x, iteration_cap(n), 1e-10) {
+                        Ok(k) => {
+                            ensure!(x.vec.iter().all(|v| v.is_finite()), "Ok({}) but x = {:?}", k, x.vec);
+                            let err = (0..n).map(|i| (x[i] - g[i]).abs()).fold(0.0, f64::max);
+                            ensure!(err <= 1e-9 * norm_inf(&g), "Ok({}) but x moved away from the solution by {:e}", k, err);
+                            Ok(())
+                        }
+                        Err(e) => Err(format!("a guess that solves the system to rounding was not accepted: Err({:e}); x = {:?}", e, x.vec)),
+                    }
+                });
+                match res {
+                    Ok(Ok(())) => {}
+                    Ok(Err(e)) => acc.fail(idx, key(), e),
+                    Err(p) => acc.fail(idx, key(), format!("unexpected panic: {}", p)),
+                }
+            }
+        },
+    );
+}
+
 fn main() {
     let ctx = Ctx::from_args("C09");
     ctx.level("exploration");
@@ -457,6 +518,7 @@ fn main() {
         }
     }
     qmr_restart_cases(&ctx);
+    near_exact_guess_space(&ctx);
     // Right-hand sides beyond 1e155 in norm: r.r overflows (below 1e-155: underflows) in CG, BiCG and BiCGSTAB, which then
     // fail on a perfectly conditioned system; QMR normalises its vectors and survives. The property says "right-hand
     // sides of any scale": genuine, not repaired (it needs scaled inner products throughout three solvers), listed.
